@@ -209,7 +209,7 @@ Proof.
   unfold common_attr, sev_ok. intros H. destruct (rule_of (la_kind a)) as [ru|]; [|sev_tac].
   apply in_app_or in H. destruct H as [H|H]; [sev_tac|].
   apply in_app_or in H. destruct H as [H|H].
-  { destruct (la_alias a), (ru_props ru); sev_tac. }
+  { unfold props_diags in H. destruct (la_alias a), (la_xprop a), (ru_props ru); sev_tac. }
   apply in_app_or in H. destruct H as [H|H]; [sev_tac|].
   apply in_app_or in H. destruct H as [H|H]; [sev_tac|].
   apply in_app_or in H. destruct H as [H|H]; [sev_tac|].
@@ -386,7 +386,7 @@ Proof.
   destruct (negb (ru_allows_multiple ru) && Nat.ltb 1 (count_kind (la_kind a) seen));
   destruct (existsb (fun k => Nat.ltb 0 (count_kind k seen)) (ru_mutex ru));
   destruct (ru_unique ru && negb (is_nil (la_value a)) && smem (la_value a) uniq);
-  destruct (la_alias a), (ru_props ru);
+  unfold props_diags; destruct (la_alias a), (la_xprop a), (ru_props ru);
   destruct (la_kind a); unfold verb_diags;
   try (destruct (smem (la_value a) supported_verbs); [|destruct (smem (la_value a) other_http_verbs)]);
   apply nodup_natb_spec; reflexivity.
@@ -398,7 +398,8 @@ Proof.
   repeat apply allq_app;
     try (match goal with |- allq _ (if ?c then _ else _) => destruct c end;
          [apply allq_cons; [split; reflexivity | apply allq_nil] | apply allq_nil]).
-  - destruct (la_alias a), (ru_props ru); try apply allq_nil; (apply allq_cons; [split; reflexivity | apply allq_nil]).
+  - unfold props_diags. destruct (la_alias a), (la_xprop a), (ru_props ru); try apply allq_nil;
+      (apply allq_cons; [split; reflexivity | apply allq_nil]).
   - destruct (la_kind a); try apply allq_nil. unfold verb_diags.
     destruct (smem (la_value a) supported_verbs); [apply allq_nil|].
     destruct (smem (la_value a) other_http_verbs); (apply allq_cons; [split; reflexivity | apply allq_nil]).
@@ -622,7 +623,7 @@ Definition demo_layout : layout :=
 
 Definition demo_route : route :=
   mkR "/c" [mkA KMethod "FETCH"; mkA KRoute "/a1/{pid}/{pid}";
-            {| la_kind := KPath; la_value := s "idx"; la_alias := ANonStr |}]
+            {| la_kind := KPath; la_value := s "idx"; la_alias := ANonStr; la_xprop := false |}]
     [mkP "id" TPrim SPlain] [].
 
 Lemma demo_ranged :
@@ -654,3 +655,82 @@ Proof. reflexivity. Qed.
 Lemma inside_example : inside (value_range demo_cpos (s "FETCH")) (comment_range demo_cpos) = true
                        /\ value_range demo_cpos (s "FETCH") = {| g_sl := 12; g_sc := 21; g_el := 12; g_ec := 26 |}.
 Proof. split; reflexivity. Qed.
+
+(* ---------------------------------------------------------------- RetValsRange *)
+
+Lemma pos_leb_iff l1 c1 l2 c2 : pos_leb l1 c1 l2 c2 = true <-> (l1 < l2 \/ (l1 = l2 /\ c1 <= c2))%N.
+Proof.
+  unfold pos_leb. rewrite Bool.orb_true_iff, Bool.andb_true_iff, N.ltb_lt, N.eqb_eq, N.leb_le. tauto.
+Qed.
+
+Lemma last_cons {A} (b : A) t a : last (b :: t) a = last t b.
+Proof.
+  destruct t as [|c t]; [reflexivity|].
+  change (last (b :: c :: t) a) with (last (c :: t) a).
+  revert c. induction t as [|d t IH]; intros c; [reflexivity|].
+  change (last (c :: d :: t) a) with (last (d :: t) a). change (last (c :: d :: t) b) with (last (d :: t) b). apply IH.
+Qed.
+
+Ltac pos_lia :=
+  unfold rng_wf in *;
+  repeat match goal with H : pos_leb _ _ _ _ = true |- _ => apply pos_leb_iff in H end;
+  repeat split; try apply pos_leb_iff; lia.
+
+(* in a list in source order every piece starts not before the first one, ends not after the last
+   one, and starts not after it ends *)
+Lemma in_order_chain : forall t a x, in_order (a :: t) = true -> In x (a :: t) ->
+  pos_leb (g_sl a) (g_sc a) (g_sl x) (g_sc x) = true
+  /\ pos_leb (g_el x) (g_ec x) (g_el (last t a)) (g_ec (last t a)) = true
+  /\ rng_wf x = true.
+Proof.
+  induction t as [|b t IH]; intros a x Hord Hin.
+  - cbn [in_order] in Hord. rewrite !Bool.andb_true_r in Hord.
+    destruct Hin as [<-|[]]. cbn [last]. pos_lia.
+  - cbn [in_order] in Hord. apply Bool.andb_true_iff in Hord. destruct Hord as [Hord Hrest].
+    apply Bool.andb_true_iff in Hord. destruct Hord as [Hwf Hab].
+    rewrite last_cons.
+    pose proof (IH b b Hrest (or_introl eq_refl)) as [_ [Hbl Hbwf]].
+    destruct Hin as [<-|Hin].
+    + pos_lia.
+    + destruct (IH b x Hrest Hin) as [Hbx [Hxl Hxwf]]. pos_lia.
+Qed.
+
+(* the range of the return values encloses every single return value, wherever the line breaks
+   of the result list are *)
+Theorem rets_range_encloses l x : in_order l = true -> In x l -> inside x (rets_range l) = true.
+Proof.
+  destruct l as [|a t]; intros Hord Hin; [destruct Hin|].
+  destruct (in_order_chain t a x Hord Hin) as [H1 [H2 H3]].
+  unfold inside, rets_range. cbn [g_sl g_sc g_el g_ec]. unfold rng_wf in H3. rewrite H1, H2, H3. reflexivity.
+Qed.
+
+(* ... and lies inside whatever encloses all of them (the result list, the declaration, the file) *)
+Theorem rets_range_inside l reg :
+  l <> [] -> in_order l = true -> (forall x, In x l -> inside x reg = true) -> inside (rets_range l) reg = true.
+Proof.
+  destruct l as [|a t]; intros Hne Hord Hall; [congruence|].
+  assert (Hla : In (last t a) (a :: t)).
+  { clear. revert a. induction t as [|b t IH]; intros a; [left; reflexivity|].
+    rewrite last_cons. right. apply IH. }
+  pose proof (Hall a (or_introl eq_refl)) as Ha. pose proof (Hall _ Hla) as Hl.
+  destruct (in_order_chain t a (last t a) Hord Hla) as [H1 [_ H3]].
+  destruct (in_order_chain t a a Hord (or_introl eq_refl)) as [_ [H2 H4]].
+  unfold inside in *. unfold rets_range. cbn [g_sl g_sc g_el g_ec].
+  repeat match goal with H : (_ && _)%bool = true |- _ => apply Bool.andb_true_iff in H; destruct H end.
+  rewrite !Bool.andb_true_iff. pos_lia.
+Qed.
+
+(* taking lines and columns apart is something else as soon as the list is spread over several
+   lines: the hull leaves the result list (and the text of its last line) *)
+Lemma rets_range_not_componentwise :
+  in_order demo_wrapped_rets = true
+  /\ (forall x, In x demo_wrapped_rets -> inside x demo_wrapped_list = true)
+  /\ rets_range demo_wrapped_rets = {| g_sl := 21; g_sc := 1; g_el := 22; g_ec := 7 |}
+  /\ inside (rets_range demo_wrapped_rets) demo_wrapped_list = true
+  /\ componentwise_hull demo_wrapped_rets = {| g_sl := 21; g_sc := 1; g_el := 22; g_ec := 11 |}
+  /\ componentwise_hull demo_wrapped_rets <> rets_range demo_wrapped_rets.
+Proof.
+  repeat split; try reflexivity.
+  - intros x [<-|[<-|[]]]; reflexivity.
+  - vm_compute. discriminate.
+Qed.
